@@ -754,7 +754,7 @@ def run(ctx):
     cases, layouts, _ = enumerate_cases(ctx, fills, designparts=ctx.pick(2, 3), ddofs=ctx.pick("{0, 1}", "{0, 1, 2}"),
                                         mincounts=ctx.pick("{0, 2}", "{0, 1, 3}"))
     guard_all(cases)
-    items, total_pairs, sampled = pair_items(ctx, cases, layouts, ctx.pick(2400, 30000), pre_quota=ctx.pick(900, 6000))
+    items, total_pairs, sampled = pair_items(ctx, cases, layouts, ctx.pick(2200, 24000), pre_quota=ctx.pick(700, 4000))
     replay_cases(ctx, items)
     nrec = ctx.pick(400, 4000)
     recs = [r for r in pmap(_record, [(i, random_case(ctx.rng)) for i in range(nrec)], chunk=16) if r is not None]
